@@ -68,10 +68,28 @@ def shards(tier):
 # ---------------------------------------------------------------------------
 # observation
 
+DECOY_RUNS = [0]
+
+
 def observe_parser(text):
     import ZConfig
     from ZConfig.cfgparser import ZConfigParser
     from ZConfig.schemaless import Resource
+    if "<" in text and text != text.lower():
+        # an application's own parser subclass reading the same text first
+        # (case kept, as _normalize_case allows): whatever it leaves behind
+        # in the module or the class must not reach the stock parser
+        class KeepCase(ZConfigParser):
+            def _normalize_case(self, string):
+                return string
+        dctx = RecordingContext()
+        decoy = KeepCase(Resource(io.StringIO(text), None), dctx)
+        dctx.parser = decoy
+        try:
+            decoy.parse(dctx.top)
+        except Exception:  # noqa
+            pass
+        DECOY_RUNS[0] += 1
     ctx = RecordingContext()
     parser = ZConfigParser(Resource(io.StringIO(text), None), ctx)
     ctx.parser = parser
@@ -375,6 +393,7 @@ def run_shard(ctx):
     rng = ctx.rng("random")
     for i in range(RANDOM[ctx.tier] // ctx.nshards):
         check_text(ctx, random_text(rng), "random")
+    ctx.res.hook("case_preserving_subclass_parsed_first", DECOY_RUNS[0])
     ctx.res.info["bounds"] = {
         "alphabet": ALPHABET, "single_line_max_len": bound,
         "pool_size": len(pool), "pool_max_lines": maxlines,
